@@ -68,7 +68,9 @@ def relations(run, specs, origin):
         f = (comb(k[0], a) * d[0] ** (k[0] - a) * comb(k[1], b) * d[1] ** (k[1] - b)
              * comb(k[2], c) * d[2] ** (k[2] - c))
         acc += f * lower[:, :, n]
-        mag += abs(f) * np.abs(lower[:, :, n])
+        # scale of the rounding error of a lower moment: its largest element (an individual element can be a tiny
+        # remainder of cancelling contributions, so its own magnitude says nothing about its error)
+        mag += abs(f) * float(np.abs(lower[:, :, n]).max())
     run.case(("shift",) + sig(specs))
     run.count("origin-shift-law")
     if np.any(np.abs(acc - target) > 1e-9 * mag + 1e-12):
@@ -104,6 +106,15 @@ def check(run):
             run.count("transform")
         one_case(run, specs, origin, orders, t, kind)
         ncase += 1
+    k = 0
+    for la, lb in itertools.product(range(5), repeat=2):      # tail regime (premature screening would bite here)
+        if run.tier == "quick" and (la + lb) % 2:
+            continue
+        u = TAIL_LADDER[k % len(TAIL_LADDER)]
+        s1, s2 = tail_pair(rng, la, lb, u)
+        one_case(run, [s1, s2], [0.1, -0.2, 0.3], [rng.choice(triples) for _ in range(2)] + [(0, 0, 0)], None, "off")
+        run.count("tail regime")
+        k += 1
     for _ in range(4 if run.tier == "quick" else 30):
         specs = random_basis(rng, 1, 3, lmax=3)
         relations(run, specs, [core.snap(rng.uniform(-1, 1), 8) for _ in range(3)])
